@@ -355,8 +355,12 @@ LOOP:
 					go func(job *CronJob) {
 						c.run(ctx, job)
 					}(job)
-					c.resetTimer()
 				}
+				// Re-arm the timer even when the head was not ready: the
+				// job the timer was set for might have been removed since
+				// (rem does not touch the timer), and nothing else would
+				// arm it for the jobs that are still pending.
+				c.resetTimer()
 			}
 			c.Unlock()
 			// elapsed := time.Now().Sub(now)
